@@ -167,7 +167,8 @@ def main(replay=None):
     casesB = []
     if replay and not casesA:
         r = json.load(open(replay))["replay"]
-        casesB = [(r["p"], r["q"])]
+        if r.get("family", "B") == "B" and "p" in r:
+            casesB = [(r["p"], r["q"])]
     else:
         casesB = [(g.program(depth=3, length=4), g.program(depth=3, length=4)) for _ in range(nB)]
     progs = sorted({x for pq in casesB for x in pq})
@@ -395,6 +396,75 @@ def main(replay=None):
                               "changes the numbers a fresh instance reads / computes" % {"after": "before it", "beside": "beside it (another thread)", "twice": "(P itself) before it"}[m],
                               {"family": "E", "text_p": tp, "text_q": tq, "impl": r, "mode": m})
                 break
+
+    # ------------------------------------------------------------- family T: the clock is not an input
+    # A program that uses no time operator (sleep, uiSleep, time, diag_tickTime, systemTime, ...) and runs without a time limit
+    # has the same inputs whatever the clock does, so by the first sentence of the property its values, its diagnostics and their
+    # order are the same.  Programs: two or three scheduled scripts (spawn) that share globals and run for many turns each, so
+    # that it matters where a turn ends.  Each runs in a fresh VM in a fresh process under the interposed clock of the harness,
+    # which advances by a fixed amount per query - 0, 1 us, 40 us, 0.7 ms (and 5 ms for a few) - for system_clock and steady_clock.
+    TICKS = [0, 1000, 40 * 1000, 700 * 1000]
+    def sched_program(r_):
+        stmts = ["g = g + 1", "h pushBack g", "k = (k * 3 + g) mod 1009", "g = g + (k mod 2)", "h pushBack (k + g)", "k = k + count h", "g = g + 2; k = (k + 1) mod 97",
+                 "if (g mod 3 == 0) then { k = k + 1 } else { g = g + 1 }", "private _v = [g, k]; h pushBack (_v select 1)", "g = (g max k) + 1"]
+        n = r_.randint(2, 3)
+        parts = ["g = 0; k = 1; h = [];"]
+        for s in range(n):
+            body = "; ".join(r_.choice(stmts) for _ in range(r_.randint(1, 3)))
+            parts.append('s%d = [] spawn { for "_i" from 1 to %d do { %s; if (_i mod %d == 0) then { diag_log ["s%d", _i, g, k, count h] } }; diag_log ["s%d done", g, k, count h, h select (count h - 1)] };'
+                         % (s, r_.randint(60, 320), body, r_.randint(5, 23), s, s))
+        return " ".join(parts)
+    TIME_WORDS = re.compile(r"\b(sleep|uisleep|time|diag_ticktime|systemtime|systemtimeutc|daytime|date|servertime|random|waituntil|diag_deltatime|diag_frameno|diag_fps)\b", re.I)
+    casesT = []     # (program, ticks)
+    if replay:
+        r = json.load(open(replay))["replay"]
+        if r.get("family") == "T":
+            casesT = [(r["text"], [r["tick_a_ns"], r["tick_b_ns"]])]
+    else:
+        cdir = os.path.join(V.VERIF, "corpus", PID)
+        if os.path.isdir(cdir):
+            for fn in sorted(os.listdir(cdir)):
+                r = json.load(open(os.path.join(cdir, fn)))
+                if r.get("family") == "T":
+                    casesT.append((r["text"], TICKS))
+        for i in range(40 if thorough else 12):
+            casesT.append((sched_program(rng), TICKS + ([5 * 1000 * 1000] if i < 3 else [])))
+    casesT = [(t, tk) for t, tk in casesT if not TIME_WORDS.search(t)]
+    il = []
+    for t, tk in casesT:
+        for ns in tk + [tk[0]]:
+            il.append("%d\t%s" % (ns, hx(t)))
+    rc, implT, _ = harness_run("clock", il, timeout=3000)
+    it = iter(implT)
+    dist["T programs (scheduled scripts sharing globals, no time operator) x clock speeds"] = "%d x %d" % (len(casesT), len(TICKS))
+    tstats = {"programs": len(casesT), "runs": 0, "log lines of the longest": 0, "clock queries seen (min..max per run)": None}
+    qs = []
+    for t, tk in casesT:
+        recs = [next(it) for _ in tk + [tk[0]]]
+        body = [x.split("\t")[0] for x in recs]
+        for x in recs:
+            m_ = re.search(r"queries=(-?\d+)", x)
+            if m_ and int(m_.group(1)) >= 0:
+                qs.append(int(m_.group(1)))
+        if body[-1] != body[0]:
+            dist["T dropped: record not reproducible under the same clock"] = dist.get("T dropped: record not reproducible under the same clock", 0) + 1
+            continue
+        tstats["runs"] += len(tk)
+        tstats["log lines of the longest"] = max(tstats["log lines of the longest"], len(marks(body[0])))
+        evaluations += len(tk) - 1
+        distinct.add(("T", t))
+        for ns, b in list(zip(tk, body))[1:]:
+            if b != body[0]:
+                ma, mb = marks(body[0]), marks(b)
+                at = next((i for i in range(min(len(ma), len(mb))) if ma[i] != mb[i]), min(len(ma), len(mb)))
+                run.violation("the same program in a fresh VM gives different diagnostics / values when only the speed of the clock differs (%d ns and %d ns per clock query); "
+                              "it uses no time operator and has no time limit. First difference at log line %d: %s versus %s"
+                              % (tk[0], ns, at + 1, ma[at] if at < len(ma) else (body[0][:40] if not ma else "<end of log>"), mb[at] if at < len(mb) else (b[:40] if not mb else "<end of log>")),
+                              {"family": "T", "text": t, "tick_a_ns": tk[0], "tick_b_ns": ns, "record_a": body[0][:4000], "record_b": b[:4000]})
+                break
+    if qs:
+        tstats["clock queries seen (min..max per run)"] = "%d..%d" % (min(qs), max(qs))
+    run.cov["clock_independence"] = tstats
 
     # ------------------------------------------------------------- family R: re-entrancy through the log callback (one thread)
     # Instance A runs an expression P whose operator emits a non-fatal diagnostic part-way through; inside A's log callback the
